@@ -572,12 +572,28 @@ var whDecoder = func() *admission.Decoder {
 
 // whImpl calls the real handler and abstracts the fate of the request.
 func whImpl(g *whGen, p *whParsed) (res interface{}) {
+	r, _ := whImplF(g, p, 0)
+	return r
+}
+
+// whImplF: failN > 0 makes the failN-th API call of the handler fail.  For the fault sweep "err" = the request was not admitted.
+func whImplF(g *whGen, p *whParsed, failN int) (res interface{}, fr faultRun) {
+	lc := NewLogClient(whClient(p))
 	defer func() {
 		if r := recover(); r != nil {
 			res = J{"res": "panic"}
+			fr = faultRun{Err: true, Calls: lc.Calls, Hit: lc.FaultHit, Writes: writesOf(lc)}
 		}
 	}()
-	cl := whClient(p)
+	var cl client.Client = lc
+	lc.FailCallN = failN
+	defer func() {
+		admitted := false
+		if m, ok := res.(J); ok && m["res"] == "admitted" {
+			admitted = true
+		}
+		fr = faultRun{Err: !admitted, Calls: lc.Calls, Hit: lc.FaultHit, Writes: writesOf(lc)}
+	}()
 	req := whRequest(g)
 	var resp admission.Response
 	if g.Unified {
@@ -588,7 +604,7 @@ func whImpl(g *whGen, p *whParsed) (res interface{}) {
 		resp = h.Handle(context.TODO(), req)
 	}
 	if !resp.Allowed {
-		return J{"res": "rejected"}
+		return J{"res": "rejected"}, fr
 	}
 	patched := []byte(g.New)
 	if len(resp.Patches) > 0 {
@@ -596,18 +612,18 @@ func whImpl(g *whGen, p *whParsed) (res interface{}) {
 		must(err)
 		patch, err := jsonpatch.DecodePatch(pb)
 		if err != nil {
-			return J{"res": "patchError"}
+			return J{"res": "patchError"}, fr
 		}
 		patched, err = patch.Apply(g.New)
 		if err != nil {
-			return J{"res": "patchError"}
+			return J{"res": "patchError"}, fr
 		}
 	}
 	o := absObj(patched)
 	if !reflect.DeepEqual(stripModelled(patched), stripModelled(g.New)) {
 		o["rest"] = 1
 	}
-	return J{"res": "admitted", "obj": o}
+	return J{"res": "admitted", "obj": o}, fr
 }
 
 func whEmit(c *Ctx, g *whGen) {
@@ -623,6 +639,16 @@ func replayWebhook(c *Ctx, op string, in json.RawMessage) {
 	}
 	must(json.Unmarshal(in, &w))
 	switch op {
+	case "fault":
+		var f struct {
+			In struct {
+				Gen whGen `json:"gen"`
+			} `json:"in"`
+			K int `json:"k"`
+		}
+		must(json.Unmarshal(in, &f))
+		p := whParse(&f.In.Gen)
+		faultReplay(c, J{"gen": &f.In.Gen}, f.K, func(n int) faultRun { _, r := whImplF(&f.In.Gen, p, n); return r })
 	case "handle":
 		whEmit(c, &w.Gen)
 	case "fetch":
@@ -685,6 +711,7 @@ type wlP struct {
 	UID         string
 	WType       string
 	ExtraLabel  string
+	IDLabel     string // a *label* with the rollout-id key (the webhook reads the annotation only; a label with that key means nothing to it)
 	ExtraAnno   string
 	Replicas    *int
 	RolloutID   string
@@ -737,6 +764,9 @@ func whMeta(p *wlP) metav1.ObjectMeta {
 	}
 	if p.ExtraLabel != "" {
 		lab["team"] = p.ExtraLabel
+	}
+	if p.IDLabel != "" {
+		lab[rolloutIDKey] = p.IDLabel
 	}
 	if p.StableRev != "" {
 		lab[stableRevKey] = p.StableRev
@@ -981,6 +1011,9 @@ func (g *whG) workload(combo string) *wlP {
 	}
 	if g.p(30) {
 		p.ExtraLabel = "blue"
+	}
+	if g.p(20) {
+		p.IDLabel = g.pick("1", "2", "legacy")
 	}
 	if g.p(30) {
 		p.ExtraAnno = "n1"
@@ -1441,6 +1474,11 @@ func runWebhook(c *Ctx) {
 	for i := 0; i < c.N; i++ {
 		cs := g.genCase()
 		whEmit(c, cs)
+		if i%5 == 0 {
+			// C06/C08: an API call of the handler fails (the Rollout List, the ReplicaSet List, …): the request is never admitted
+			p := whParse(cs)
+			faultSweep(c, J{"gen": cs}, true, func(n int) faultRun { _, r := whImplF(cs, p, n); return r })
+		}
 		if i%10 == 0 {
 			whEmitFetch(c, cs)
 			whEmitEff(c, cs)
